@@ -13,10 +13,13 @@
 #define MAXL 2
 #endif
 #ifndef ENV_MALLOC_CAP
-#define ENV_MALLOC_CAP 200
+#define ENV_MALLOC_CAP 168
 #endif
 #define ENV_CUSTOM_VSNPRINTF
+#define ENV_CUSTOM_MALLOC
+#define ENV_CUSTOM_NEW
 #include "env.c"
+#include "zheap.h"
 #include "translated.h"
 
 #define OUTCAP 224
